@@ -102,15 +102,18 @@ class _:
     def requires(o):
         s, b = o.self, o.b
         # what accumulates in the buffer is one contiguous run of one kind
-        return [("contiguous", z3.Or(b[2] == 0, s.g_n == 0, z3.And(b[0] == s.g_kind, b[1] == s.g_first + s.g_n)))]
+        # and every write appends (the stream position is at the end of what was written so far)
+        return [("contiguous", z3.Or(b[2] == 0, s.g_n == 0, z3.And(b[0] == s.g_kind, b[1] == s.g_first + s.g_n))),
+                ("appends", s.g_pos == s.g_n)]
 
-    modifies = staticmethod(lambda o: [("field", "BytesIO", f, o.self) for f in ("g_kind", "g_first", "g_n")])
+    modifies = staticmethod(lambda o: [("field", "BytesIO", f, o.self) for f in ("g_kind", "g_first", "g_n", "g_pos")])
 
     @staticmethod
     def ensures(o, n, res):
         s, b, t = o.self, o.b, n.self
-        return z3.If(b[2] == 0, z3.And(t.g_n == s.g_n, t.g_kind == s.g_kind, t.g_first == s.g_first),
-                     z3.And(t.g_n == s.g_n + b[2], t.g_kind == b[0], t.g_first == z3.If(s.g_n == 0, b[1], s.g_first)))
+        return z3.And(t.g_pos == s.g_pos + b[2],
+                      z3.If(b[2] == 0, z3.And(t.g_n == s.g_n, t.g_kind == s.g_kind, t.g_first == s.g_first),
+                            z3.And(t.g_n == s.g_n + b[2], t.g_kind == b[0], t.g_first == z3.If(s.g_n == 0, b[1], s.g_first))))
 
 
 # --- FastaIndex ---------------------------------------------------------------------------------
@@ -153,7 +156,7 @@ class _:
             inv=lambda v, e, o: (lambda fh, info, rpl: [
                 ("counter", z3.And(0 <= v._it0, v._it0 <= v.last_whole_line - v.frst_line)),
                 ("line-start", z3.And(fh.g_next == (v.frst_line + 1 + v._it0) * rpl, fh.pos == info.file_offset + (v.frst_line + 1 + v._it0) * info.max_line_length)),
-                ("buffer", z3.And(v.seq.g_kind == 0, v.seq.g_first == o.start - 1, v.seq.g_n == fh.g_next - (o.start - 1), v.seq.g_n > 0)),
+                ("buffer", z3.And(v.seq.g_kind == 0, v.seq.g_first == o.start - 1, v.seq.g_n == fh.g_next - (o.start - 1), v.seq.g_n > 0, v.seq.g_pos == v.seq.g_n)),
                 ("ghost", fh.g_info.z == info.z),
             ])(v.fh, o.info, o.info.residues_per_line),
             hints=lambda v: [div_unique(v.fh.g_next, v.info.residues_per_line, v.frst_line + 1 + v._it0)],
@@ -352,6 +355,30 @@ class _:
         s = o.self
         m = smt.Min(o.n, s.g_n - s.g_pos)
         return z3.And(res[0] == s.g_kind, res[1] == s.g_first + s.g_pos, res[2] == m, n.self.g_pos == s.g_pos + m)
+
+
+@contract("ext.BytesIO.getvalue", status="TRUSTED")
+class _:
+    params = {"self": BIO}
+    result = BYTES
+    ensures = staticmethod(lambda o, n, res: z3.And(res[0] == o.self.g_kind, res[1] == o.self.g_first, res[2] == o.self.g_n))
+
+
+@contract("ext.BytesIO.truncate", status="TRUSTED")
+class _:
+    # truncate(size) keeps the first `size` bytes and leaves the stream position where it is
+    params = {"self": BIO, "size": INT}
+    result = INT
+    requires = staticmethod(lambda o: o.size >= 0)
+    modifies = staticmethod(lambda o: [("field", "BytesIO", "g_n", o.self)])
+    ensures = staticmethod(lambda o, n, res: n.self.g_n == smt.Min(o.self.g_n, o.size))
+
+
+@contract("ext.BytesIO.tell", status="TRUSTED")
+class _:
+    params = {"self": BIO}
+    result = INT
+    pure = staticmethod(lambda o, s: s.g_pos)
 
 
 BOUT = TRef("BinOut")
